@@ -50,6 +50,9 @@ def run(res, replay=None):
             if n < 3:
                 lc = True
             cases.append({'spec': s, 'rewards': [rand_reward(rng, pops, n, lc) for _ in range(k)], 'T': rng.choice([0.5, 1.0, 2.0])})
+    if not replay and cases:
+        cases[0]['two_locus_history'] = 1.0
+        cases[-1]['two_locus_history'] = 0.25
     orc.run_oracle(res, 'routes', cases)
     items = []
     for c in cases[: (4 if res.tier == 'quick' else 20)]:
